@@ -149,6 +149,38 @@ Theorem C14_binary_escape_refuted : forall p esc fc mbap,
 Proof. exact binary_escape_refuted. Qed.
 Print Assumptions C14_binary_escape_refuted.
 
+(* TCP (socket framer): the 8-byte read (MBAP header + function code), then length - 2 bytes,
+   take exactly the frame; normal and exception replies; the prediction is not used *)
+Theorem C14_tcp_reads_exactly : forall p fc pred,
+  1 <= p -> 0 <= fc < 128 ->
+  recv_plan FSocket (expected_response_length FSocket pred) (spec_adu_len FSocket p) fc (1 + p)
+  = ([Some 8; Some (p - 1)], RecvDone (Some (spec_adu_len FSocket p))).
+Proof. exact tcp_reads_exactly. Qed.
+Print Assumptions C14_tcp_reads_exactly.
+
+Theorem C14_tcp_reads_exactly_exception : forall fc pred mbap,
+  128 <= fc ->
+  recv_plan FSocket (expected_response_length FSocket pred) (spec_adu_len FSocket exception_pdu_len) fc mbap
+  = ([Some 8; Some 1], RecvDone (Some (spec_adu_len FSocket exception_pdu_len))).
+Proof. exact tcp_reads_exactly_exception. Qed.
+Print Assumptions C14_tcp_reads_exactly_exception.
+
+(* EVERY diagnostic request class found in diag_message.py (GenSizes.diag_table: enumerated from
+   the source on every run, each registered in factory.py): it is the class of a sub-function the
+   spec defines, and outside the delimited defects its prediction is the spec length.  A new
+   class in the source makes this theorem fail (fail closed). *)
+Theorem C14_diag_all_classes : forall sub cls,
+  In (sub, cls) diag_table ->
+  class_of (diag_request sub) = cls /\ In sub spec_diag_subs /\
+  (known_defect (diag_request sub) = false ->
+   predicted_pdu_size cls (attrs_of (diag_request sub)) = spec_response_pdu_len (diag_request sub)).
+Proof. exact diag_all_classes. Qed.
+Print Assumptions C14_diag_all_classes.
+
+Theorem C14_diag_table_complete : map fst diag_table = spec_diag_subs.
+Proof. exact (proj2 diag_table_checked). Qed.
+Print Assumptions C14_diag_table_complete.
+
 Example C14_nonvacuous :
   request_ok (QReadCoils 19) = true /\ known_defect (QReadCoils 19) = false /\ predicting (QReadCoils 19) = true
   /\ predicted_pdu_size (class_of (QReadCoils 19)) (attrs_of (QReadCoils 19)) = Some 5
